@@ -30,6 +30,17 @@ Fixpoint plain_args (args : list rval) (ps : list string) : bool :=
   | _, _ => false
   end.
 
+(* ---- expressions with calls: {n * [f {n - 1}]} ---- *)
+Inductive CExpr : expr -> Prop :=
+| CE_pure e : supported mt e = true -> regs_visible e = true -> CExpr e
+| CE_call f args d : builtin_params f builtin_table = None -> find_rdef rt f = Some d -> plain_args args (rd_params d) = true ->
+    must_return (rd_body d) = true -> CExpr (ECall f args)
+| CE_builtin f args ps : builtin_params f builtin_table = Some ps -> plain_args args ps = true -> CExpr (ECall f args)
+| CE_bin op a b : CExpr a -> CExpr b -> CExpr (EBin op a b)
+| CE_neg a : CExpr a -> CExpr (ENeg a)
+| CE_pos a : CExpr a -> CExpr (EPos a)
+| CE_paren a : CExpr a -> CExpr (EParen a).
+
 (* [SimpleB inl inr st]: st is covered; inl = it may contain a break that belongs to an enclosing loop;
    inr = it may contain a return (it lies in the body of a routine).  A call is covered when it names a routine of the table
    and its arguments are ordinary values; [bodies_ok] below says that the body of every routine of the table is covered, so
@@ -47,6 +58,8 @@ Inductive SimpleB : bool -> bool -> stmt -> Prop :=
     SimpleB inl inr (use_stmt u (RCall f args))
 | B_builtinret inl f args ps : builtin_params f builtin_table = Some ps -> plain_args args ps = true ->
     SimpleB inl true (SReturn (Some (RCall f args)))
+| B_useexpr inl inr u e : CExpr e -> use_ok u = true -> SimpleB inl inr (use_stmt u (RExpr e))
+| B_retexpr inl e : CExpr e -> SimpleB inl true (SReturn (Some (RExpr e)))
 | B_callret inl f args d : builtin_params f builtin_table = None -> find_rdef rt f = Some d ->
     plain_args args (rd_params d) = true -> must_return (rd_body d) = true -> SimpleB inl true (SReturn (Some (RCall f args)))
 | B_if inl inr c a : plain_rval mt c = true -> SimpleB inl inr a -> SimpleB inl inr (SIf c a None)
@@ -212,6 +225,58 @@ Proof. intros Ha. unfold call_code. rewrite !forallb_app, (c_args_no_routine arg
 Lemma bcall_code_no_routine ps f args : plain_args args ps = true -> forallb not_routine (bcall_code ps f args) = true.
 Proof. intros Ha. unfold bcall_code. rewrite !forallb_app, (c_args_no_routine args _ Ha). reflexivity. Qed.
 
+Lemma c_ecall f args d : builtin_params f builtin_table = None -> find_rdef rt f = Some d ->
+  c_expr rt mt (ECall f args) = call_code d f args ++ [I1 OC_PUSH (PReg R_RESULT)].
+Proof.
+  intros Hb Hf. cbn [c_expr]. unfold call_code, mk_call, params_of_routine. rewrite Hb, Hf. f_equal. f_equal. f_equal.
+  generalize (rd_params d). induction args as [|a r IH]; intros ps; destruct ps as [|p ps]; cbn [c_args]; try reflexivity.
+  rewrite IH. reflexivity.
+Qed.
+Lemma c_ecall_builtin f args ps : builtin_params f builtin_table = Some ps ->
+  c_expr rt mt (ECall f args) = bcall_code ps f args ++ [I1 OC_PUSH (PReg R_RESULT)].
+Proof.
+  intros Hb. cbn [c_expr]. unfold bcall_code, mk_call, params_of_routine. rewrite Hb. f_equal. f_equal. f_equal.
+  generalize ps. induction args as [|a r IH]; intros qs; destruct qs as [|p qs]; cbn [c_args]; try reflexivity.
+  rewrite IH. reflexivity.
+Qed.
+
+Lemma cexpr_no_routine e : CExpr e -> forallb not_routine (c_expr rt mt e) = true.
+Proof.
+  induction 1 as [e Hs _|f args d Hb Hf Hp _|f args ps Hb Hp|op a b _ IHa _ IHb|a _ IHa|a _ IHa|a _ IHa].
+  - exact (c_expr_no_routine rt mt e Hs).
+  - rewrite (c_ecall f args d Hb Hf), forallb_app, (call_code_no_routine d f args Hp). reflexivity.
+  - rewrite (c_ecall_builtin f args ps Hb), forallb_app, (bcall_code_no_routine ps f args Hp). reflexivity.
+  - cbn [c_expr]. rewrite !forallb_app, IHa, IHb. reflexivity.
+  - cbn [c_expr]. rewrite forallb_app, IHa. reflexivity.
+  - exact IHa.
+  - exact IHa.
+Qed.
+
+
+(* where the value of an expression goes: POP into the variable / register, or POP into RESULT and print *)
+Definition use_pop (u : use) : program :=
+  match u with
+  | UAssign y => [I1 OC_POP (PStr y)]
+  | UReg r => [I1 OC_POP (PReg r)]
+  | UPrint nl => [I1 OC_POP (PReg R_RESULT)] ++ use_tail (UPrint nl)
+  end.
+Lemma c_useexpr after u e : c_stmt rt mt false after (use_stmt u (RExpr e)) = c_expr rt mt e ++ use_pop u.
+Proof.
+  destruct u as [y|r|[|]]; cbn [use_stmt use_pop use_tail].
+  - reflexivity.
+  - reflexivity.
+  - change (c_stmt rt mt false after (SPrintln (Some (RExpr e)))) with
+      ((c_expr rt mt e ++ [I1 OC_POP (PReg R_RESULT)]) ++ [I2 OC_OUT (PIoOp IO_REGISTER) (PReg R_RESULT); I1 OC_OUT (PIoOp IO_PRINT); I1 OC_OUT (PIoOp IO_PRINT_END)]).
+    rewrite <- app_assoc. reflexivity.
+  - change (c_stmt rt mt false after (SPrint (Some (RExpr e)))) with
+      ((c_expr rt mt e ++ [I1 OC_POP (PReg R_RESULT)]) ++ [I2 OC_OUT (PIoOp IO_REGISTER) (PReg R_RESULT); I1 OC_OUT (PIoOp IO_PRINT)]).
+    rewrite <- app_assoc. reflexivity.
+Qed.
+Lemma c_retexpr after e : c_stmt rt mt false after (SReturn (Some (RExpr e))) = c_expr rt mt e ++ [I1 OC_POP (PReg R_RESULT); I0 OC_RETURN].
+Proof. rewrite c_return, c_rval_expr, <- app_assoc. reflexivity. Qed.
+Lemma use_pop_no_routine u : forallb not_routine (use_pop u) = true.
+Proof. destruct u as [y|r|[|]]; reflexivity. Qed.
+
 Lemma simpleB_no_routine :
   (forall inl inr st, SimpleB inl inr st -> forall after, forallb not_routine (c_stmt rt mt false after st) = true) /\
   (forall inl inr l, SimpleBL inl inr l -> forall after, forallb not_routine (c_stmt rt mt false after (SBlock l)) = true).
@@ -225,6 +290,8 @@ Proof.
   - intros inl inr u f args d Hb Hf Ha _ Hok after. rewrite (c_use after u f args d Hb Hf Hok), forallb_app, (call_code_no_routine d f args Ha), use_tail_no_routine. reflexivity.
   - intros inl inr u f args ps Hb Ha Hok after. rewrite (c_use_builtin after u f args ps Hb Hok), forallb_app, (bcall_code_no_routine ps f args Ha), use_tail_no_routine. reflexivity.
   - intros inl f args ps Hb Ha after. rewrite (c_retcall_builtin after f args ps Hb), forallb_app, (bcall_code_no_routine ps f args Ha). reflexivity.
+  - intros inl inr u e He Hok after. rewrite (c_useexpr after u e), forallb_app, (cexpr_no_routine e He), use_pop_no_routine. reflexivity.
+  - intros inl e He after. rewrite (c_retexpr after e), forallb_app, (cexpr_no_routine e He). reflexivity.
   - intros inl f args d Hb Hf Ha _ after. rewrite (c_retcall after f args d Hb Hf), forallb_app, (call_code_no_routine d f args Ha). reflexivity.
   - intros inl inr c a Hc _ IHa after. rewrite c_if1_after, !forallb_app, (IHa after), (c_rval_no_routine rt mt c (DReg R_RESULT) Hc (plain_ok_result mt c Hc)). reflexivity.
   - intros inl inr c a b Hc _ IHa _ IHb after. rewrite c_if2_after, !forallb_app, (IHa _), (IHb after), (c_rval_no_routine rt mt c (DReg R_RESULT) Hc (plain_ok_result mt c Hc)). reflexivity.
@@ -609,6 +676,150 @@ Proof.
     intros _. subst sgb. injection He as Hx. subst x. exact Hres4.
 Qed.
 
+(* the code of the expression runs to the instruction behind it with the value on top of the stack *)
+Definition push_to (im : image) (ss : sstate) (s : mstate) (x : value) (ss1 : sstate) (k : Z) : Prop :=
+  exists n s' evs, esteps n im s = Some (s', evs) /\ sim ss1 s' /\ m_pc s' = m_pc s + k /\ m_stack s' = x :: m_stack s /\ fr s' = fr s /\
+                   rev (s_trace ss1) = rev (s_trace ss) ++ evs.
+
+Lemma operand_value_ok v s x s1 : operand_value v s = ROk x s1 -> x = v /\ s1 = s /\ v <> VNone.
+Proof. destruct v; cbn [operand_value]; intros H; try discriminate; injection H as <- <-; (split; [reflexivity|split; [reflexivity|discriminate]]). Qed.
+
+Lemma push_result im ss s v : sim ss s -> rf_get (m_regs s) R_RESULT = Some v -> v <> VNone ->
+  fetch im (m_pc s) = Some (I1 OC_PUSH (PReg R_RESULT)) ->
+  esteps 1 im s = Some (advance (with_stack s (v :: m_stack s)), []) /\ sim ss (advance (with_stack s (v :: m_stack s))).
+Proof.
+  intros Hsim Hr Hn Hf. split; [exact (push_step im s (PReg R_RESULT) v Hf Hr Hn)|].
+  destruct Hsim as [H1 H2 H3 H4 H5 H6 H7 H8]. constructor; assumption.
+Qed.
+
+Lemma pop_step im s d x st : ok_dest d (RLit (LInt 0)) = true -> m_stack s = x :: st -> fetch im (m_pc s) = Some (I1 OC_POP (dest_param d)) ->
+  esteps 1 im s = Some (put_vm (with_stack s st) d x 1, []).
+Proof.
+  intros Hd0 Hs Hf. apply (estep1 im s _ _ _ Hf). cbn [Machine.exec i_op i_p0 I1]. unfold pop1. rewrite Hs. cbn [bind].
+  pose proof (lift_put (with_stack s st) d x Hd0) as Hl.
+  destruct d as [r|y|lv|]; cbn [ok_dest] in Hd0; try discriminate; cbn [dest_param] in *; exact Hl.
+Qed.
+
+Lemma use_pop_runs u im ss s x st : use_ok u = true -> sim ss s -> m_stack s = x :: st -> code_at im (m_pc s) (use_pop u) ->
+  exists n s' evs, esteps n im s = Some (s', evs) /\ sim (use_sem u x ss) s' /\ m_pc s' = m_pc s + zlength (use_pop u) /\
+                   m_stack s' = st /\ fr s' = fr s /\ rev (s_trace (use_sem u x ss)) = rev (s_trace ss) ++ evs.
+Proof.
+  intros Hok Hsim Hsk Hc. pose proof (sim_with_stack ss s st Hsim) as Hsim0.
+  destruct u as [y|r|nl]; cbn [use_pop use_sem use_ok] in *.
+  - cbn [code_at] in Hc. destruct Hc as [Hf _].
+    exists 1%nat, (put_vm (with_stack s st) (DVar y) x 1), []. split; [exact (pop_step im s (DVar y) x st eq_refl Hsk Hf)|].
+    split; [apply sim_put_var; exact Hsim0|]. split; [rewrite put_vm_var_pc, zlength1; reflexivity|].
+    pose proof (put_vm_var_stack_fr (with_stack s st) y x 1 (sim_settled _ _ Hsim0)) as Hsf. injection Hsf as H1 H2.
+    split; [exact H1|]. split; [exact H2|]. rewrite app_nil_r. destruct (assign_other_fields ss y x) as [_ [_ Et]]. rewrite Et. reflexivity.
+  - cbn [code_at] in Hc. destruct Hc as [Hf _].
+    assert (Hd0 : ok_dest (DReg r) (RLit (LInt 0)) = true) by (destruct r; try discriminate; reflexivity).
+    exists 1%nat, (put_vm (with_stack s st) (DReg r) x 1), []. split; [exact (pop_step im s (DReg r) x st Hd0 Hsk Hf)|].
+    split; [apply sim_put_reg_visible; [exact Hsim0|apply script_reg_visible; exact Hok]|]. split; [rewrite zlength1; reflexivity|].
+    split; [reflexivity|]. split; [reflexivity|]. rewrite app_nil_r. reflexivity.
+  - apply code_at_app in Hc. destruct Hc as [Hpop Hct]. cbn [code_at] in Hpop. destruct Hpop as [Hf _].
+    set (s1 := put_vm (with_stack s st) (DReg R_RESULT) x 1).
+    assert (E1 : esteps 1 im s = Some (s1, [])) by exact (pop_step im s (DReg R_RESULT) x st eq_refl Hsk Hf).
+    assert (Hs1 : sim ss s1) by (apply sim_put_reg_hidden; [exact Hsim0|reflexivity|reflexivity]).
+    assert (Hr1 : rf_get (m_regs s1) R_RESULT = Some x) by apply rf_get_set_same.
+    assert (Hct1 : code_at im (m_pc s1) (use_tail (UPrint nl))) by exact Hct.
+    destruct (use_tail_runs (UPrint nl) im ss s1 x eq_refl Hs1 Hr1 Hct1) as (n2 & s2 & e2 & E2 & Hs2 & Hpc2 & Hsf2 & Ht2).
+    injection Hsf2 as H1 H2.
+    exists (1 + n2)%nat, s2, ([] ++ e2). split; [eapply esteps_app; eassumption|]. split; [exact Hs2|].
+    split; [rewrite Hpc2; unfold s1; cbn [put_vm with_stack m_pc]; unfold zlength; rewrite app_length, Nat2Z.inj_add; cbn [length]; lia|].
+    split; [rewrite H1; reflexivity|]. split; [rewrite H2; reflexivity|]. exact Ht2.
+Qed.
+
+Lemma cexpr_runs e : CExpr e -> forall fuel, (forall k, (k < fuel)%nat -> body_sim k) ->
+  forall im ss s x ss1, routines_loaded im -> sim ss s -> code_at im (m_pc s) (c_expr rt mt e) ->
+  eval_expr rt mt fuel false ss e = ROk x ss1 -> push_to im ss s x ss1 (zlength (c_expr rt mt e)).
+Proof.
+  induction 1 as [e Hs Hv|f args d Hb Hf Hp Hm|f args ps Hb Hp|op a b _ IHa _ IHb|a _ IHa|a _ IHa|a _ IHa];
+    intros fuel Hbs im ss s x ss1 Hload Hsim Hc He.
+  - (* no call inside: ExprCompile *)
+    destruct (eval_expr_ok rt mt e Hs fuel false ss x ss1 He) as [Hs1 Ep]. subst ss1.
+    rewrite <- (peval_sim mt e ss s Hsim Hs Hv) in Ep.
+    destruct (c_expr_pushes_value rt mt e Hs im s x Hc Ep) as [n Hn].
+    exists n, (pushed s x (zlength (c_expr rt mt e))), []. split; [apply steps_esteps; exact Hn|].
+    split; [destruct Hsim as [H1 H2 H3 H4 H5 H6 H7 H8]; constructor; assumption|].
+    split; [reflexivity|]. split; [reflexivity|]. split; [reflexivity|]. rewrite app_nil_r. reflexivity.
+  - (* a call of a routine *)
+    destruct fuel as [|[|fuel]]; try discriminate.
+    change (eval_expr rt mt (S (S fuel)) false ss (ECall f args)) with (let* (v, s1) := call rt mt (S fuel) false ss f args in operand_value v s1) in He.
+    destruct (call rt mt (S fuel) false ss f args) as [v s1|e s1|s1] eqn:Ecall; cbn [sbind] in He; try discriminate.
+    destruct (operand_value_ok v s1 x ss1 He) as [-> [-> Hn]].
+    rewrite (c_ecall f args d Hb Hf) in *. apply code_at_app in Hc. destruct Hc as [Hcc Hpush]. cbn [code_at] in Hpush. destruct Hpush as [Hfp _].
+    destruct (call_runs fuel (Hbs fuel ltac:(lia)) f args d Hb Hf Hp im ss s v s1 Hload Hsim Hcc Ecall) as (n & s' & evs & E & Hs' & Hpc & Hsf & Ht & Hres).
+    assert (Hfp' : fetch im (m_pc s') = Some (I1 OC_PUSH (PReg R_RESULT))) by (rewrite Hpc; exact Hfp).
+    destruct (push_result im s1 s' v Hs' (Hres Hm) Hn Hfp') as [E2 Hs2].
+    injection Hsf as Hsk Hfr.
+    exists (n + 1)%nat, (advance (with_stack s' (v :: m_stack s'))), (evs ++ []). split; [eapply esteps_app; eassumption|]. split; [exact Hs2|].
+    split; [cbn [advance with_pc with_stack m_pc]; rewrite Hpc; unfold zlength; rewrite app_length, Nat2Z.inj_add; cbn [length]; lia|].
+    split; [cbn [advance with_pc with_stack m_stack]; rewrite Hsk; reflexivity|]. split; [exact Hfr|]. rewrite app_nil_r. exact Ht.
+  - (* a built-in function *)
+    destruct fuel as [|[|fuel]]; try discriminate.
+    change (eval_expr rt mt (S (S fuel)) false ss (ECall f args)) with (let* (v, s1) := call rt mt (S fuel) false ss f args in operand_value v s1) in He.
+    destruct (call rt mt (S fuel) false ss f args) as [v s1|e s1|s1] eqn:Ecall; cbn [sbind] in He; try discriminate.
+    destruct (operand_value_ok v s1 x ss1 He) as [-> [-> Hn]].
+    rewrite (c_ecall_builtin f args ps Hb) in *. apply code_at_app in Hc. destruct Hc as [Hcc Hpush]. cbn [code_at] in Hpush. destruct Hpush as [Hfp _].
+    destruct (builtin_runs f args ps Hb Hp fuel im ss s v s1 Hsim Hcc Ecall) as [Hs1 (n & s' & E & Hs' & Hpc & Hsf & Hres)]. subst s1.
+    assert (Hfp' : fetch im (m_pc s') = Some (I1 OC_PUSH (PReg R_RESULT))) by (rewrite Hpc; exact Hfp).
+    destruct (push_result im ss s' v Hs' Hres Hn Hfp') as [E2 Hs2].
+    injection Hsf as Hsk Hfr.
+    exists (n + 1)%nat, (advance (with_stack s' (v :: m_stack s'))), ([] ++ []). split; [eapply esteps_app; eassumption|]. split; [exact Hs2|].
+    split; [cbn [advance with_pc with_stack m_pc]; rewrite Hpc; unfold zlength; rewrite app_length, Nat2Z.inj_add; cbn [length]; lia|].
+    split; [cbn [advance with_pc with_stack m_stack]; rewrite Hsk; reflexivity|]. split; [exact Hfr|]. rewrite app_nil_r. reflexivity.
+  - (* a op b *)
+    destruct fuel as [|fuel]; [discriminate|].
+    change (eval_expr rt mt (S fuel) false ss (EBin op a b)) with
+      (let* (xa, s1) := eval_expr rt mt fuel false ss a in let* (xb, s2) := eval_expr rt mt fuel false s1 b in lift_res (eval_binop (binop_operator op) xa xb) s2) in He.
+    destruct (eval_expr rt mt fuel false ss a) as [xa sa|e sa|sa] eqn:Ea; cbn [sbind] in He; try discriminate.
+    destruct (eval_expr rt mt fuel false sa b) as [xb sb|e sb|sb] eqn:Eb; cbn [sbind] in He; try discriminate.
+    destruct (eval_binop (binop_operator op) xa xb) as [r|e] eqn:Eop; cbn [lift_res] in He; [|discriminate]. injection He as <- <-.
+    cbn [c_expr] in Hc |- *. apply code_at_app in Hc. destruct Hc as [Hca Hc]. apply code_at_app in Hc. destruct Hc as [Hcb Hop].
+    cbn [code_at] in Hop. destruct Hop as [Hfop _].
+    assert (Hbs' : forall k, (k < fuel)%nat -> body_sim k) by (intros k Hk; apply Hbs; lia).
+    destruct (IHa fuel Hbs' im ss s xa sa Hload Hsim Hca Ea) as (n1 & s1 & e1 & E1 & Hs1 & Hpc1 & Hsk1 & Hfr1 & Ht1).
+    assert (Hcb' : code_at im (m_pc s1) (c_expr rt mt b)) by (rewrite Hpc1; exact Hcb).
+    destruct (IHb fuel Hbs' im sa s1 xb sb Hload Hs1 Hcb' Eb) as (n2 & s2 & e2 & E2 & Hs2 & Hpc2 & Hsk2 & Hfr2 & Ht2).
+    assert (Hfop' : fetch im (m_pc s2) = Some (I1 OC_OP (POperator (binop_operator op)))).
+    { rewrite Hpc2, Hpc1. replace (m_pc s + zlength (c_expr rt mt a) + zlength (c_expr rt mt b)) with (m_pc s + zlength (c_expr rt mt a) + zlength (c_expr rt mt b)) by reflexivity. exact Hfop. }
+    assert (Hsk2' : m_stack s2 = xb :: xa :: m_stack s) by (rewrite Hsk2, Hsk1; reflexivity).
+    pose proof (binop_step im s2 (binop_operator op) xa xb (m_stack s) r Hfop' (binop_not_unary op) Hsk2' Eop) as E3.
+    exists (n1 + (n2 + 1))%nat, (advance (with_stack s2 (r :: m_stack s))), (e1 ++ (e2 ++ [])).
+    split; [eapply esteps_app; [exact E1|eapply esteps_app; [exact E2|exact E3]]|].
+    split; [destruct Hs2 as [H1 H2 H3 H4 H5 H6 H7 H8]; constructor; assumption|].
+    split; [cbn [advance with_pc with_stack m_pc]; rewrite Hpc2, Hpc1; unfold zlength; rewrite !app_length, !Nat2Z.inj_add; cbn [length]; lia|].
+    split; [reflexivity|]. split; [change (fr (advance (with_stack s2 (r :: m_stack s)))) with (fr s2); rewrite Hfr2; exact Hfr1|].
+    rewrite app_nil_r, Ht2, Ht1, app_assoc. reflexivity.
+  - (* - a *)
+    destruct fuel as [|fuel]; [discriminate|].
+    change (eval_expr rt mt (S fuel) false ss (ENeg a)) with (let* (xa, s1) := eval_expr rt mt fuel false ss a in lift_res (neg_value xa) s1) in He.
+    destruct (eval_expr rt mt fuel false ss a) as [xa sa|e sa|sa] eqn:Ea; cbn [sbind] in He; try discriminate.
+    destruct (neg_value xa) as [r|e] eqn:Eop; cbn [lift_res] in He; [|discriminate]. injection He as <- <-.
+    cbn [c_expr] in Hc |- *. apply code_at_app in Hc. destruct Hc as [Hca Hc]. cbn [code_at] in Hc. destruct Hc as [Hf1 [Hf2 _]].
+    assert (Hbs' : forall k, (k < fuel)%nat -> body_sim k) by (intros k Hk; apply Hbs; lia).
+    destruct (IHa fuel Hbs' im ss s xa sa Hload Hsim Hca Ea) as (n1 & s1 & e1 & E1 & Hs1 & Hpc1 & Hsk1 & Hfr1 & Ht1).
+    assert (Hf1' : fetch im (m_pc s1) = Some (push_of (PInt (-1)))) by (rewrite Hpc1; exact Hf1).
+    pose proof (push_step im s1 (PInt (-1)) (VInt (-1)) Hf1' eq_refl ltac:(discriminate)) as E2.
+    set (s2 := advance (with_stack s1 (VInt (-1) :: m_stack s1))) in *.
+    assert (Hf2' : fetch im (m_pc s2) = Some (I1 OC_OP (POperator OP_MUL))).
+    { unfold s2. cbn [advance with_pc with_stack m_pc]. rewrite Hpc1. replace (m_pc s + zlength (c_expr rt mt a) + 1) with (m_pc s + zlength (c_expr rt mt a) + Z.of_nat 1) by lia. exact Hf2. }
+    assert (Hsk2 : m_stack s2 = VInt (-1) :: xa :: m_stack s) by (unfold s2; cbn [advance with_pc with_stack m_stack]; rewrite Hsk1; reflexivity).
+    pose proof (binop_step im s2 OP_MUL xa (VInt (-1)) (m_stack s) r Hf2' eq_refl Hsk2 Eop) as E3.
+    exists (n1 + (1 + 1))%nat, (advance (with_stack s2 (r :: m_stack s))), (e1 ++ ([] ++ [])).
+    split; [eapply esteps_app; [exact E1|eapply esteps_app; [exact E2|exact E3]]|].
+    split; [destruct Hs1 as [H1 H2 H3 H4 H5 H6 H7 H8]; constructor; assumption|].
+    split; [unfold s2; cbn [advance with_pc with_stack m_pc]; rewrite Hpc1; unfold zlength; rewrite !app_length, !Nat2Z.inj_add; cbn [length]; lia|].
+    split; [reflexivity|]. split; [change (fr (advance (with_stack s2 (r :: m_stack s)))) with (fr s1); exact Hfr1|].
+    cbn [app]. rewrite app_nil_r. exact Ht1.
+  - (* + a *)
+    destruct fuel as [|fuel]; [discriminate|]. change (eval_expr rt mt (S fuel) false ss (EPos a)) with (eval_expr rt mt fuel false ss a) in He.
+    exact (IHa fuel (fun k Hk => Hbs k ltac:(lia)) im ss s x ss1 Hload Hsim Hc He).
+  - (* ( a ) *)
+    destruct fuel as [|fuel]; [discriminate|]. change (eval_expr rt mt (S fuel) false ss (EParen a)) with (eval_expr rt mt fuel false ss a) in He.
+    exact (IHa fuel (fun k Hk => Hbs k ltac:(lia)) im ss s x ss1 Hload Hsim Hc He).
+Qed.
+
 Theorem simpleB_simulation_upto : bodies_ok -> forall fuel0 : nat,
   (forall inl inr st, SimpleB inl inr st ->
      forall after im ss s sig ss' fuel, (fuel <= fuel0)%nat -> routines_loaded im -> in_loop_ok inl after -> in_ret_ok inr (m_frames s) ->
@@ -718,6 +929,41 @@ Proof.
     exists (n + 1)%nat, s2, ([] ++ []). split; [eapply esteps_app; eassumption|].
     split; [split; [destruct Hs' as [Hr1 Hf1 Hg1 Hv1 Hst1 Hw1 Hu1 Hdf1]; repeat split; assumption|exact Hres]|].
     split; [reflexivity|]. split; [reflexivity|]. split; [exact Hrs1|]. rewrite app_nil_r. reflexivity.
+  - (* an expression with calls inside, assigned, put into a register or printed *)
+    intros inl inr u e He0 Hok after im ss s sig ss' fuel Hle Hload _ _ _ Hsim Hc He.
+    destruct fuel as [|f1]; [discriminate|]. rewrite exec_use in He. destruct f1 as [|f2]; [discriminate|]. rewrite eval_rval_S in He.
+    rewrite (c_useexpr after u e) in *.
+    destruct (eval_expr rt mt f2 false ss e) as [x s1|er s1|s1] eqn:Ee; cbn [sbind] in He; try discriminate. injection He as Hsig Hss. subst sig ss'.
+    apply code_at_app in Hc. destruct Hc as [Hce Hct].
+    destruct (cexpr_runs e He0 f2 (fun k Hk => Hbs k ltac:(lia)) im ss s x s1 Hload Hsim Hce Ee) as (n & s' & evs & E & Hs' & Hpc & Hsk & Hfr & Ht).
+    assert (Hct' : code_at im (m_pc s') (use_pop u)) by (rewrite Hpc; exact Hct).
+    destruct (use_pop_runs u im s1 s' x (m_stack s) Hok Hs' Hsk Hct') as (n2 & s2 & e2 & E2 & Hs2 & Hpc2 & Hsk2 & Hfr2 & Ht2).
+    left. split; [reflexivity|]. exists (n + n2)%nat, s2, (evs ++ e2). split; [eapply esteps_app; eassumption|]. split; [exact Hs2|].
+    split; [rewrite Hpc2, Hpc; unfold zlength; rewrite app_length, Nat2Z.inj_add; lia|]. split; [rewrite Hsk2, Hfr2, Hfr; reflexivity|]. rewrite Ht2, Ht, app_assoc. reflexivity.
+  - (* return {expression with calls inside} *)
+    intros inl e He0 after im ss s sig ss' fuel Hle Hload _ Hir _ Hsim Hc He.
+    destruct fuel as [|f1]; [discriminate|]. rewrite exec_return in He. destruct f1 as [|f2]; [discriminate|]. rewrite eval_rval_S in He.
+    rewrite (c_retexpr after e) in *.
+    destruct (eval_expr rt mt f2 false ss e) as [x s1|er s1|s1] eqn:Ee; cbn [sbind] in He; try discriminate. injection He as Hsig Hss. subst sig ss'.
+    apply code_at_app in Hc. destruct Hc as [Hce Hct]. cbn [code_at] in Hct. destruct Hct as [Hfpop [Hfret _]].
+    destruct (cexpr_runs e He0 f2 (fun k Hk => Hbs k ltac:(lia)) im ss s x s1 Hload Hsim Hce Ee) as (n & s' & evs & E & Hs' & Hpc & Hsk & Hfr & Ht).
+    assert (Hfpop' : fetch im (m_pc s') = Some (I1 OC_POP (dest_param (DReg R_RESULT)))) by (rewrite Hpc; exact Hfpop).
+    set (sp := put_vm (with_stack s' (m_stack s)) (DReg R_RESULT) x 1).
+    assert (Ep : esteps 1 im s' = Some (sp, [])) by exact (pop_step im s' (DReg R_RESULT) x (m_stack s) eq_refl Hsk Hfpop').
+    assert (Hsp : sim s1 sp) by (apply sim_put_reg_hidden; [apply sim_with_stack; exact Hs'|reflexivity|reflexivity]).
+    assert (Hsf : (m_stack sp, fr sp) = (m_stack s, fr s)) by (change (m_stack sp, fr sp) with (m_stack s, fr s'); rewrite Hfr; reflexivity).
+    destruct (fr_eq_facts sp s Hsf) as [Hsk1 [Hct1 [_ Hrs1]]].
+    destruct (Hir eq_refl) as (ret & F & Hct).
+    assert (Hct' : call_tail (m_frames sp) = Some (ret, F)) by (rewrite Hct1; exact Hct).
+    set (s2 := advance (with_pc (with_stack (with_frames sp F) (ret_stack (m_frames sp) (m_stack sp))) ret)).
+    assert (E2 : esteps 1 im sp = Some (s2, [])).
+    { assert (Hfr' : fetch im (m_pc sp) = Some (I0 OC_RETURN)).
+      { unfold sp. cbn [put_vm with_stack m_pc]. rewrite Hpc. replace (m_pc s + zlength (c_expr rt mt e) + 1) with (m_pc s + zlength (c_expr rt mt e) + Z.of_nat 1) by lia. exact Hfret. }
+      apply (estep1 im sp _ _ _ Hfr'). cbn [Machine.exec i_op I0]. rewrite (do_return_steps sp ret F Hct'). reflexivity. }
+    right. right. split; [reflexivity|]. exists x. split; [reflexivity|]. exists ret, F. split; [exact Hct|].
+    exists (n + (1 + 1))%nat, s2, (evs ++ ([] ++ [])). split; [eapply esteps_app; [exact E|eapply esteps_app; eassumption]|].
+    split; [split; [destruct Hsp as [Hr1 Hf1 Hg1 Hv1 Hst1 Hw1 Hu1 Hdf1]; repeat split; assumption|apply rf_get_set_same]|].
+    split; [reflexivity|]. split; [reflexivity|]. split; [exact Hrs1|]. cbn [app]. rewrite app_nil_r. exact Ht.
   - (* return [f ...]: the call, then RETURN with the value still in RESULT *)
     intros inl f args d Hb Hf Hpl Hmr after im ss s sig ss' fuel Hle Hload _ Hir _ Hsim Hc He.
     destruct fuel as [|f1]; [discriminate|]. rewrite exec_return in He. destruct f1 as [|f2]; [discriminate|]. rewrite eval_rval_S in He.
@@ -1610,6 +1856,29 @@ Proof.
   exact Hto.
 Qed.
 
+(* an expression with calls inside -- `assign y {n * [f {n - 1}]}`, `hue {[g] + 10}`, `print {[round x] / 2}` *)
+Theorem expression_call_simulation :
+  forall rt mt, bodies_ok rt mt -> forall u e, CExpr rt mt e -> use_ok u = true ->
+  forall after im ss s sig ss' fuel, routines_loaded rt mt im -> sim ss s ->
+  code_at im (m_pc s) (c_stmt rt mt false after (use_stmt u (RExpr e))) ->
+  Sem.exec rt mt fuel false ss (use_stmt u (RExpr e)) = ROk sig ss' ->
+  sig = SigNormal /\
+  exists n s' evs, esteps n im s = Some (s', evs) /\ sim ss' s' /\ m_pc s' = m_pc s + zlength (c_stmt rt mt false after (use_stmt u (RExpr e))) /\
+                   (m_stack s', fr s') = (m_stack s, fr s) /\ rev (s_trace ss') = rev (s_trace ss) ++ evs.
+Proof.
+  intros rt mt Hbodies u e He0 Hok after im ss s sig ss' fuel Hload Hsim Hc He.
+  assert (Hd : in_depth_ok false s) by (intros H; discriminate).
+  assert (Hsig : sig = SigNormal).
+  { destruct fuel as [|fuel]; [discriminate|]. rewrite exec_use in He.
+    destruct (eval_rval rt mt fuel false ss (RExpr e)) as [v s1|er s1|s1]; cbn [sbind] in He; try discriminate. injection He as <- _. reflexivity. }
+  subst sig. split; [reflexivity|].
+  assert (Hir : in_ret_ok false (m_frames s)) by (intros H; discriminate).
+  assert (Hin : in_loop_ok false after) by (intros H; discriminate).
+  destruct (proj1 (simpleB_simulation rt mt Hbodies) false false _ (B_useexpr rt mt false false u e He0 Hok) after im ss s SigNormal ss' fuel Hload
+              Hin Hir Hd Hsim Hc He) as [[_ Hto]|[[H _]|[_ [v [H _]]]]]; try discriminate.
+  exact Hto.
+Qed.
+
 (* a boolean test for the covered statements (sound for SimpleB / SimpleBL) *)
 Section CheckB.
 Variable rt : rtable.
@@ -1625,6 +1894,16 @@ Definition callval_b (v : rval) : bool :=
       end
   | _ => false
   end.
+(* an expression whose calls are calls of built-in functions or of routines that always return, with ordinary values as arguments *)
+Fixpoint cexpr_b (e : expr) : bool :=
+  (supported mt e && regs_visible e) ||
+  match e with
+  | ECall g args => callval_b (RCall g args)
+  | EBin _ a b => cexpr_b a && cexpr_b b
+  | ENeg a | EPos a | EParen a => cexpr_b a
+  | _ => false
+  end.
+Definition valexpr_b (v : rval) : bool := match v with RExpr e => cexpr_b e | _ => false end.
 Fixpoint simpleB_b (fuel : nat) (inl inr : bool) (st : stmt) : bool :=
   match fuel with
   | O => false
@@ -1632,9 +1911,9 @@ Fixpoint simpleB_b (fuel : nat) (inl inr : bool) (st : stmt) : bool :=
       simple_atom mt st ||
       match st with
       | SBreak => inl
-      | SAssign _ v | SPrint (Some v) | SPrintln (Some v) => callval_b v
-      | SReg r v => script_reg r && callval_b v
-      | SReturn (Some v) => inr && (plain_rval mt v || callval_b v)
+      | SAssign _ v | SPrint (Some v) | SPrintln (Some v) => callval_b v || valexpr_b v
+      | SReg r v => script_reg r && (callval_b v || valexpr_b v)
+      | SReturn (Some v) => inr && (plain_rval mt v || callval_b v || valexpr_b v)
       | SReturn None => inr
       | SCall g args _ =>
           match builtin_params g builtin_table, find_rdef rt g with
@@ -1668,10 +1947,23 @@ Proof.
   { intros v Hv. destruct v as [l|l|m|m|y|r|e|g args]; try discriminate. cbn [callval_b] in Hv. exists g, args. split; [reflexivity|].
     destruct (builtin_params g builtin_table) as [ps|] eqn:Eb; [left; exists ps; split; [reflexivity|exact Hv]|]. destruct (find_rdef rt g) as [d|] eqn:Ef; [|discriminate].
     apply andb_true_iff in Hv. destruct Hv as [Hp Hm]. right. exists d. repeat split; assumption. }
-  assert (Huse : forall u v, callval_b v = true -> use_ok u = true -> SimpleB rt mt inl inr (use_stmt u v)).
-  { intros u v Hv Hok. destruct (Hcv v Hv) as (g & args & -> & [(ps & Hb & Hp)|(d & Hb & Hf & Hp & Hm)]).
-    - exact (B_builtinuse rt mt inl inr u g args ps Hb Hp Hok).
-    - exact (B_calluse rt mt inl inr u g args d Hb Hf Hp Hm Hok). }
+  assert (Hce : forall e, cexpr_b e = true -> CExpr rt mt e).
+  { induction e as [l|m|x|r|g args|op a IHa b IHb|a IHa|a IHa|a IHa]; cbn [cexpr_b]; intros He;
+      (destruct (supported mt _ && regs_visible _) eqn:Es; [apply andb_true_iff in Es; destruct Es as [E1 E2]; exact (CE_pure rt mt _ E1 E2)|]);
+      cbn [orb] in He; try discriminate.
+    - destruct (Hcv (RCall g args) He) as (g' & args' & Heq & [(ps & Hb & Hp)|(d & Hb & Hf & Hp & Hm)]); injection Heq as <- <-.
+      + exact (CE_builtin rt mt g args ps Hb Hp).
+      + exact (CE_call rt mt g args d Hb Hf Hp Hm).
+    - apply andb_true_iff in He. destruct He as [Ha Hb]. apply CE_bin; [apply IHa; exact Ha|apply IHb; exact Hb].
+    - apply CE_neg. apply IHa. exact He.
+    - apply CE_pos. apply IHa. exact He.
+    - apply CE_paren. apply IHa. exact He. }
+  assert (Huse : forall u v, callval_b v || valexpr_b v = true -> use_ok u = true -> SimpleB rt mt inl inr (use_stmt u v)).
+  { intros u v Hv Hok. apply orb_true_iff in Hv. destruct Hv as [Hv|Hv].
+    - destruct (Hcv v Hv) as (g & args & -> & [(ps & Hb & Hp)|(d & Hb & Hf & Hp & Hm)]).
+      + exact (B_builtinuse rt mt inl inr u g args ps Hb Hp Hok).
+      + exact (B_calluse rt mt inl inr u g args d Hb Hf Hp Hm Hok).
+    - destruct v as [l|l|m|m|y|r|e|g args]; try discriminate. exact (B_useexpr rt mt inl inr u e (Hce e Hv) Hok). }
   destruct st; try discriminate.
   - (* register setting with the value of a call *)
     apply andb_true_iff in H. destruct H as [Hr Hv]. exact (Huse (UReg r) v Hv Hr).
@@ -1682,10 +1974,12 @@ Proof.
     exact (B_call rt mt inl inr f0 args bracketed d Eb Ef H).
   - (* return *)
     destruct v as [v|].
-    + apply andb_true_iff in H. destruct H as [Hr Hv]. subst inr. apply orb_true_iff in Hv. destruct Hv as [Hv|Hv]; [apply B_return; exact Hv|].
-      destruct (Hcv v Hv) as (g & args & -> & [(ps & Hb & Hp)|(d & Hb & Hf & Hp & Hm)]).
-      * exact (B_builtinret rt mt inl g args ps Hb Hp).
-      * exact (B_callret rt mt inl g args d Hb Hf Hp Hm).
+    + apply andb_true_iff in H. destruct H as [Hr Hv]. subst inr. apply orb_true_iff in Hv. destruct Hv as [Hv|Hv].
+      * apply orb_true_iff in Hv. destruct Hv as [Hv|Hv]; [apply B_return; exact Hv|].
+        destruct (Hcv v Hv) as (g & args & -> & [(ps & Hb & Hp)|(d & Hb & Hf & Hp & Hm)]).
+        -- exact (B_builtinret rt mt inl g args ps Hb Hp).
+        -- exact (B_callret rt mt inl g args d Hb Hf Hp Hm).
+      * destruct v as [l|l|m|m|y|r|e|g args]; try discriminate. exact (B_retexpr rt mt inl e (Hce e Hv)).
     + subst inr. apply B_return0.
   - destruct s2 as [b|].
     + apply andb_true_iff in H. destruct H as [H Hb]. apply andb_true_iff in H. destruct H as [Hc Ha].
